@@ -21,6 +21,9 @@ type GateSpec struct {
 	MustCall [][]string // each entry: alternative callee symbols, one of which must be passed
 	MustNode [][]string // each entry: symbols a statement on every path must mention (e.g. a masking assignment)
 	MinSites int        // minimal number of target sites (default 1)
+	// IfMentions restricts the check to the body of the unique if statement whose condition mentions all of
+	// these symbols (comma separated).
+	IfMentions string
 	// Arm restricts the check to one clause of the switch over Opcode constants (pkg/vm): the clause
 	// containing this constant; From = entries of the clause, guards and targets inside it.
 	Arm string
@@ -67,6 +70,35 @@ func runGates(c *Ctx, specs []GateSpec) {
 			from = f.regionEntries(region)
 			if len(from) == 0 {
 				c.Lost(base+".arm", fmt.Sprintf("%s: arm of %s has no entry block", FuncKey(fd.Obj), sp.Arm))
+				continue
+			}
+		}
+		if sp.IfMentions != "" {
+			want := strings.Split(sp.IfMentions, ",")
+			var found []*ast.IfStmt
+			inspectNoLit(f.Body, func(n ast.Node) bool {
+				if is, ok := n.(*ast.IfStmt); ok {
+					m := f.Mentions(is.Cond, nil)
+					all := true
+					for _, w := range want {
+						if !m[w] {
+							all = false
+						}
+					}
+					if all {
+						found = append(found, is)
+					}
+				}
+				return true
+			})
+			if len(found) != 1 {
+				c.Lost(base+".if", fmt.Sprintf("%s: expected one if statement mentioning %s, found %d", FuncKey(fd.Obj), sp.IfMentions, len(found)))
+				continue
+			}
+			region = found[0].Body
+			from = f.regionEntries(region)
+			if len(from) == 0 {
+				c.Lost(base+".if", fmt.Sprintf("%s: body of the if mentioning %s has no entry block", FuncKey(fd.Obj), sp.IfMentions))
 				continue
 			}
 		}
@@ -145,6 +177,25 @@ func runGates(c *Ctx, specs []GateSpec) {
 			}
 			targets = blocksOf(sites)
 			tdesc = "write of " + fld
+		case sp.Target == "return-true" || sp.Target == "allow-return":
+			var sites []site
+			for _, r := range f.Returns() {
+				rs := r.node.(*ast.ReturnStmt)
+				if len(rs.Results) == 0 {
+					continue
+				}
+				v, isConst := boolConst(f.Info, rs.Results[0])
+				if (sp.Target == "return-true" && isConst && v) || (sp.Target == "allow-return" && !(isConst && !v)) {
+					sites = append(sites, r)
+				}
+			}
+			sites = inRegion(sites)
+			if len(sites) == 0 {
+				c.Lost(base+".target", FuncKey(fd.Obj)+": no "+sp.Target+" exit found")
+				continue
+			}
+			targets = blocksOf(sites)
+			tdesc = sp.Target + " exit"
 		case sp.Target == "ok-return":
 			sites := f.OKReturns()
 			if len(sites) == 0 {
